@@ -5,8 +5,8 @@ from __future__ import annotations
 import ast
 from typing import Dict, List, Set
 
-from ..astutil import calls_in, const_str, dotted, name_stores, own_exprs, raises_of, unparse, walk_local, walk_stmts
-from ..report import Registry, sub
+from ..astutil import calls_in, const_str, dotted, lexical_guards, name_stores, own_exprs, raises_of, unparse, walk_local, walk_stmts
+from ..report import Registry, chain, sub
 from ._helpers_rules_d import call_nodes, callee_is, const_is, guard_atom_set, qualname
 
 R = Registry(
@@ -90,16 +90,64 @@ def r1(ctx):
     real = call_nodes(g, lambda c: callee_is(c, "orm_pre_session_exec") and c.args and const_is(c.args[-1], False))
     conn = call_nodes(g, lambda c: callee_is(c, "self._connection_for_bind") or callee_is(c, "self.connection"))
     ctx.require(conn, "_execute_internal never obtains a connection")
-    # the only condition a Core autoflush may depend on: "no ORM compile-state plugin", spelled in any way
-    def _core_guard(n):
-        return {("compile_state_cls is None", True) if a == ("compile_state_cls", False) else a for a in guard_atom_set(g, n)}
-    good = bool(core) and all(_core_guard(n) <= {("compile_state_cls is None", True)} for n in core)
-    ctx.check(good, f"{f.key}:core-autoflush", "Core statements are not autoflushed unconditionally (only condition allowed: no ORM compile-state plugin)",
-              "self._autoflush() guarded by nothing but `compile_state_cls is None`", f.loc)
-    w = g.always_preceded(conn[0], core + real)
-    ctx.check(w is None and bool(real), f"{f.key}:autoflush-before-connection",
-              "a connection can be obtained / the statement executed without autoflush (neither self._autoflush() nor orm_pre_session_exec(..., False) on the path)",
-              "every path to the connection passes autoflush or the real pre-exec call", f.loc, w)
+    # The function branches several times on "does the statement have the ORM compile-state plugin".  The CFG does not
+    # correlate those tests, so dominance is decided once per world: Core (plugin class is None: the autoflush is the
+    # direct self._autoflush() call) and ORM (plugin class present: the autoflush is the real pre-exec call).
+    plug = {nm for nm, v, st in name_stores(f.node) if isinstance(v, ast.Call) and callee_is(v, "_get_plugin_class_for_plugin")}
+    ctx.require(len(plug) == 1, "_execute_internal: the local holding the ORM compile-state plugin class was not found")
+    plug = next(iter(plug))
+
+    def truth(e, is_none):
+        """three-valued value of a test when `plug is None` == is_none (None = unknown)"""
+        if isinstance(e, ast.Name) and e.id == plug:
+            return not is_none
+        if isinstance(e, ast.UnaryOp) and isinstance(e.op, ast.Not):
+            v = truth(e.operand, is_none)
+            return None if v is None else not v
+        if isinstance(e, ast.Compare) and len(e.ops) == 1 and isinstance(e.left, ast.Name) and e.left.id == plug \
+                and isinstance(e.comparators[0], ast.Constant) and e.comparators[0].value is None:
+            if isinstance(e.ops[0], ast.Is):
+                return is_none
+            if isinstance(e.ops[0], ast.IsNot):
+                return not is_none
+        if isinstance(e, ast.BoolOp):
+            vs = [truth(v, is_none) for v in e.values]
+            if isinstance(e.op, ast.And):
+                return False if any(v is False for v in vs) else (True if all(v is True for v in vs) else None)
+            return True if any(v is True for v in vs) else (False if all(v is False for v in vs) else None)
+        return None
+
+    def world(is_none):
+        def ok(a, b, lab):
+            n = g.nodes[a]
+            if n.kind == "test" and lab in ("true", "false") and isinstance(n.stmt, (ast.If, ast.While)):
+                v = truth(n.stmt.test, is_none)
+                if v is not None and v != (lab == "true"):
+                    return False
+            return True
+        return ok
+
+    worlds = (("Core", world(True), core), ("ORM", world(False), real))
+
+    def undominated(nid):
+        """(world name, witness) of a path to nid that passes no autoflush of that world; None if none; 'dead' if unreachable"""
+        alive = False
+        for wn, ok, by in worlds:
+            if nid not in g.reachable([g.entry], edge_ok=ok):
+                continue
+            alive = True
+            w = g.always_preceded(nid, by, edge_ok=ok)
+            if w is not None:
+                return wn, w
+        return None if alive else "dead"
+
+    r = undominated(conn[0])
+    ctx.require(r != "dead", "_execute_internal: the connection is unreachable")
+    # ORM: the real pre-exec call also rewrites statement / bind_arguments that get_bind() consumes, so it must precede
+    # the connection.  (Core: only the order relative to the execution matters, see the per-exit instances below.)
+    ctx.check(bool(real) and not (r and r[0] == "ORM"), f"{f.key}:autoflush-before-connection",
+              "for an ORM statement a connection can be obtained without the real orm_pre_session_exec(..., False) call (which autoflushes) on the path",
+              "with the ORM plugin every path to the connection passes the real pre-exec call", f.loc, r[1] if r else None)
     # every way the statement is handed to the database is dominated by an autoflush: one instance per execution exit
     # (a method of the connection obtained above, or the compile state's orm_execute_statement)
     conn_names = {nm for nm, v, st in name_stores(f.node) if isinstance(v, ast.Call) and (callee_is(v, "self._connection_for_bind") or callee_is(v, "self.connection"))}
@@ -110,19 +158,31 @@ def r1(ctx):
             continue
         for part in own_exprs(n.stmt):
             for c in calls_in(part):
-                if isinstance(c.func, ast.Attribute) and isinstance(c.func.value, ast.Name) and c.func.value.id in conn_names:
+                recv = c.func.value if isinstance(c.func, ast.Attribute) else None
+                if isinstance(recv, ast.Name) and recv.id in conn_names:
                     exits.setdefault(f"conn.{c.func.attr}", []).append(n.id)
+                elif isinstance(recv, ast.Call) and (callee_is(recv, "self._connection_for_bind") or callee_is(recv, "self.connection")):
+                    exits.setdefault(f"{unparse(recv.func)}().{c.func.attr}", []).append(n.id)
                 elif callee_is(c, "orm_execute_statement"):
                     exits.setdefault("orm_execute_statement", []).append(n.id)
     ctx.require(len(exits) >= 2, f"_execute_internal: statement execution exits not understood ({sorted(exits)})")
+    core_bad = None
     for nm, nodes in sorted(exits.items()):
-        w = None
+        bad = None
         for nid in nodes:
-            w = w or g.always_preceded(nid, core + real)
-        ctx.check(w is None, f"{f.key}:autoflush-before[{nm}]",
-                  f"the statement can reach {nm}(...) on a path that passed neither self._autoflush() nor the real "
+            r = undominated(nid)
+            ctx.require(r != "dead", f"_execute_internal: {nm}() is unreachable")
+            bad = bad or r
+            if r and r[0] == "Core":
+                core_bad = core_bad or (nm, r[1])
+        ctx.check(bad is None, f"{f.key}:autoflush-before[{nm}]",
+                  f"a {bad[0] if bad else ''} statement can reach {nm}(...) on a path that passed neither self._autoflush() nor the real "
                   f"orm_pre_session_exec(..., False) call: pending changes are not flushed before this query runs",
-                  f"autoflush / real pre-exec dominates {nm}()", f.loc, w)
+                  f"autoflush / real pre-exec dominates {nm}()", f.loc, bad[1] if bad else None)
+    ctx.check(bool(core) and core_bad is None, f"{f.key}:core-autoflush",
+              "Core statements (no ORM compile-state plugin) are not autoflushed unconditionally (issue #9809)"
+              + (f": {core_bad[0]}() is reachable without self._autoflush()" if core_bad else ""),
+              "without the ORM plugin every path to an execution passes self._autoflush()", f.loc, core_bad[1] if core_bad else None)
     # --- refresh
     f = ctx.func(f"{SESSION}::Session.refresh")
     g = ctx.cfg(f)
@@ -232,6 +292,407 @@ def r4(ctx):
     ctx.check(bool(ex) and not direct, f"{lz.key}:through-session-execute", f"the lazy loader does not load through session.execute() (direct paths: {direct})", "session.execute(stmt, ...)", lz.loc)
 
 
+# ---------------------------------------------------------------------- R5: why a loader may switch autoflush off
+# The only reasons for which library code may run a statement with the autoflush step switched off.  A site whose
+# condition does not imply one of them widens "no autoflush" to loads that the property says must see pending changes.
+OFF_REASONS = {
+    "pending-parent": "the parent object is pending (no identity key): `not <state>.key`",
+    "no-autoflush-flag": "the caller passed the PASSIVE flag NO_AUTOFLUSH: `passive & NO_AUTOFLUSH`",
+    "caller-request": "the function's own `no_autoflush` parameter (every call site passing it is itself an instance of this rule)",
+    "just-autoflushed": "an _autoflush() call dominates the site in the same function",
+}
+FOLLOWED_PARAMS = {"no_autoflush"}
+# sites that are not loads on behalf of the application
+OFF_EXEMPT = {
+    "orm/dynamic.py::DynamicCollectionHistory.__init__": "history of a dynamic collection, computed for the unit of work / "
+                                                         "get_history(); it must not start a flush itself",
+}
+
+
+def _enclosing_function(pm, node):
+    cur = pm.get(node)
+    while cur is not None and not isinstance(cur, (ast.FunctionDef, ast.AsyncFunctionDef)):
+        cur = pm.get(cur)
+    return cur
+
+
+def _resolve_local(fn, e, depth=0):
+    """replace a local name that is bound exactly once (and is not a parameter) by the bound expression"""
+    if isinstance(e, ast.Name) and depth < 3:
+        a = fn.args
+        params = {x.arg for x in a.posonlyargs + a.args + a.kwonlyargs}
+        if e.id in params:
+            return e
+        vals = [v for nm, v, st in name_stores(fn) if nm == e.id]
+        if len(vals) == 1 and vals[0] is not None:
+            return _resolve_local(fn, vals[0], depth + 1)
+    return e
+
+
+def _local_values(fn, name):
+    a = fn.args
+    if name in {x.arg for x in a.posonlyargs + a.args + a.kwonlyargs}:
+        return None
+    return [(v, st) for nm, v, st in name_stores(fn) if nm == name]
+
+
+def _off_reason(fn, e, pol, g=None):
+    """classify one atom of a condition; None when it is not a whitelisted reason"""
+    e = _resolve_local(fn, e)
+    if isinstance(e, ast.Name) and pol and g is not None:
+        # a flag assigned in several places: every assigned value must be a whitelisted reason; a constant True only
+        # where an _autoflush() call dominates the assignment ("just autoflushed")
+        vals = _local_values(fn, e.id)
+        if vals and len(vals) > 1 and all(v is not None for v, st in vals):
+            af = call_nodes(g, lambda c: callee_is(c, "_autoflush"))
+            got = set()
+            for v, st in vals:
+                if const_is(v, False):
+                    continue
+                if const_is(v, True):
+                    ns = g.nodes_for(st)
+                    if af and ns and all(g.always_preceded(n, af) is None for n in ns):
+                        got.add("just-autoflushed")
+                        continue
+                    return None
+                r = _implied_reasons(fn, v, True)
+                if r is None:
+                    return None
+                got |= r
+            if got:
+                return "+".join(sorted(got))
+            return None
+    if isinstance(e, ast.UnaryOp) and isinstance(e.op, ast.Not):
+        return _off_reason(fn, e.operand, not pol)
+    if isinstance(e, ast.Call) and isinstance(e.func, ast.Name) and e.func.id == "bool" and len(e.args) == 1:
+        return _off_reason(fn, e.args[0], pol)
+    if isinstance(e, ast.Attribute) and e.attr == "key" and isinstance(e.value, ast.Name) and not pol:
+        return "pending-parent"
+    if isinstance(e, ast.Compare) and len(e.ops) == 1 and isinstance(e.left, ast.Attribute) and e.left.attr == "key" \
+            and isinstance(e.comparators[0], ast.Constant) and e.comparators[0].value is None:
+        if (isinstance(e.ops[0], ast.Is) and pol) or (isinstance(e.ops[0], ast.IsNot) and not pol):
+            return "pending-parent"
+    if isinstance(e, ast.BinOp) and isinstance(e.op, ast.BitAnd) and pol:
+        for side in (e.left, e.right):
+            if (dotted(side) or "").rsplit(".", 1)[-1] == "NO_AUTOFLUSH":
+                return "no-autoflush-flag"
+    if isinstance(e, ast.Name) and pol and e.id in FOLLOWED_PARAMS:
+        a = fn.args
+        if e.id in {x.arg for x in a.posonlyargs + a.args + a.kwonlyargs}:
+            return "caller-request"
+    return None
+
+
+def _implied_reasons(fn, test, pol, g=None):
+    """set of whitelisted reasons such that (test == pol) implies their disjunction; None if it implies none"""
+    t = _resolve_local(fn, test)
+    if isinstance(t, ast.UnaryOp) and isinstance(t.op, ast.Not):
+        return _implied_reasons(fn, t.operand, not pol, g)
+    if isinstance(t, ast.BoolOp):
+        disj = (isinstance(t.op, ast.Or) and pol) or (isinstance(t.op, ast.And) and not pol)
+        parts = [_implied_reasons(fn, v, pol, g) for v in t.values]
+        if disj:                                  # every alternative must be a whitelisted reason
+            if all(p is not None for p in parts):
+                return set().union(*parts)
+            return None
+        got = [p for p in parts if p is not None]  # a conjunction: one whitelisted conjunct suffices
+        return set().union(*got) if got else None
+    r = _off_reason(fn, t, pol, g)
+    return set(r.split("+")) if r else None
+
+
+def _autoflush_off_sites(ctx):
+    """[(module, function node, site node, kind, value-condition or None)] for every place in orm/ and ext/ that runs
+    or prepares a statement with the autoflush step switched off"""
+    out = []
+    for m in ctx.index.all_modules():
+        if not (m.relpath.startswith("orm/") or m.relpath.startswith("ext/")) or "autoflush" not in m.source:
+            continue
+        pm = m.parents()
+        for n in ast.walk(m.tree):
+            kind, cond = None, None
+            if isinstance(n, ast.Dict):
+                for k, v in zip(n.keys, n.values):
+                    if k is not None and const_str(k) in ("autoflush", "_autoflush") and const_is(v, False):
+                        kind = f"{{'{const_str(k)}': False}}"
+            elif isinstance(n, ast.Call):
+                if isinstance(n.func, ast.Attribute) and n.func.attr == "autoflush" and len(n.args) == 1 and const_is(n.args[0], False):
+                    kind = ".autoflush(False)"
+                for k in n.keywords:
+                    if k.arg == "autoflush" and const_is(k.value, False) and isinstance(n.func, ast.Attribute) \
+                            and n.func.attr in ("execution_options", "_execution_options", "update_execution_options"):
+                        kind = "execution_options(autoflush=False)"
+                    if k.arg in FOLLOWED_PARAMS and not const_is(k.value, False):
+                        kind = f"{k.arg}="
+                        cond = None if const_is(k.value, True) else k.value
+            if kind is None:
+                continue
+            fn = _enclosing_function(pm, n)
+            if fn is None:
+                continue
+            out.append((m, pm, fn, n, kind, cond))
+    return out
+
+
+@R.rule("C47-R5", floor=7, template="T-GUARD",
+        desc="every site that runs or prepares a statement with autoflush switched off ({'autoflush'|'_autoflush': False}, "
+             ".autoflush(False), execution_options(autoflush=False), no_autoflush=<x>) does so under a condition that implies one "
+             "of the whitelisted reasons: pending parent, NO_AUTOFLUSH passive flag, the caller's own no_autoflush request, "
+             "or an autoflush that was just performed")
+def r5(ctx):
+    seen: Dict[str, int] = {}
+    for m, pm, fn, site, kind, cond in sorted(_autoflush_off_sites(ctx), key=lambda t: (t[0].relpath, t[3].lineno, t[3].col_offset)):
+        fk = f"{m.relpath}::{qualname(pm, site)}"
+        seen[(fk, kind)] = seen.get((fk, kind), 0) + 1
+        key = f"{fk}:autoflush-off[{kind}]" + (f"#{seen[(fk, kind)]}" if seen[(fk, kind)] > 1 else "")
+        loc = f"{m.path}:{site.lineno}"
+        if fk in OFF_EXEMPT:
+            ctx.ok(key, "exempt: " + OFF_EXEMPT[fk])
+            continue
+        g = ctx.cfg(fn)
+        st = site
+        while st is not None and not isinstance(st, ast.stmt):
+            st = pm.get(st)
+        nodes = g.nodes_for(st) if st is not None else []
+        ctx.require(nodes, f"{key}: statement not found in the CFG")
+        guards = list(g.edge_guards(nodes[0])) + list(lexical_guards(pm, site, stop=st))
+        if cond is not None:
+            guards.append((cond, True))
+        reasons = set()
+        for t, pol in guards:
+            r = _implied_reasons(fn, t, pol, g)
+            if r:
+                reasons |= r
+        if not reasons:
+            af = call_nodes(g, lambda c: callee_is(c, "_autoflush"))
+            if af and g.always_preceded(nodes[0], af) is None:
+                reasons.add("just-autoflushed")
+        shown = " and ".join(("" if pol else "not ") + "(" + unparse(_resolve_local(fn, t)) + ")" for t, pol in guards) or "unconditionally"
+        ctx.check(bool(reasons), key,
+                  f"autoflush is switched off for this statement under `{shown}`, which does not imply any whitelisted reason "
+                  f"({', '.join(sorted(OFF_REASONS))}): loads on this path no longer see pending changes",
+                  "reason: " + ", ".join(sorted(reasons)), loc)
+
+
+# ---------------------------------------------------------------------- R6: Session.autoflush is switched off only temporarily
+@R.rule("C47-R6", floor=6, template="T-OWN/T-PATH",
+        desc="every assignment to <session>.autoflush either passes a parameter through (constructor / proxy setter) or is a "
+             "temporary switch: the previous value is saved first and re-assigned on every normal and exceptional exit "
+             "(in a `finally` around the `yield` for generator-based context managers)")
+def r6(ctx):
+    session_cls = ctx.index.cls(f"{SESSION}::Session")
+    for m in ctx.index.all_modules():
+        if not (m.relpath.startswith("orm/") or m.relpath.startswith("ext/")) or ".autoflush = " not in m.source:
+            continue
+        pm = m.parents()
+        per_fn: Dict[int, list] = {}
+        for n in ast.walk(m.tree):
+            if isinstance(n, ast.Assign) and len(n.targets) == 1 and isinstance(n.targets[0], ast.Attribute) and n.targets[0].attr == "autoflush":
+                fn = _enclosing_function(pm, n)
+                if fn is None:
+                    continue
+                if dotted(n.targets[0].value) == "self":
+                    # `self.autoflush` is the session's setting only inside Session (and subclasses)
+                    c = pm.get(fn)
+                    ci = ctx.index.cls(f"{m.relpath}::{c.name}") if isinstance(c, ast.ClassDef) and ctx.index.has(f"{m.relpath}::{c.name}") else None
+                    if ci is None or not ctx.index.is_subclass(ci, session_cls):
+                        continue
+                per_fn.setdefault(id(fn), [fn]).append(n)
+        for _, (fn, *stores) in sorted(per_fn.items(), key=lambda kv: kv[1][0].lineno):
+            fk = f"{m.relpath}::{qualname(pm, stores[0])}"
+            loc = f"{m.path}:{stores[0].lineno}"
+            a = fn.args
+            params = {x.arg for x in a.posonlyargs + a.args + a.kwonlyargs}
+            # locals that hold the saved setting:  v = <x>.autoflush
+            saved = {nm: dotted(v.value) for nm, v, st in name_stores(fn) if isinstance(v, ast.Attribute) and v.attr == "autoflush"}
+            offs, restores, passthrough, other = [], [], [], []
+            for st in stores:
+                recv = dotted(st.targets[0].value)
+                v = st.value
+                if isinstance(v, ast.Name) and v.id in saved and saved[v.id] == recv:
+                    restores.append(st)
+                elif isinstance(v, ast.Name) and v.id in params:
+                    passthrough.append(st)
+                elif isinstance(v, ast.Constant) and v.value is True:
+                    passthrough.append(st)          # forcing autoflush on cannot hide pending changes
+                elif const_is(v, False):
+                    offs.append(st)
+                else:
+                    other.append(st)
+            key = f"{fk}:session-autoflush-write"
+            if other:
+                ctx.violation(key, f"<session>.autoflush is assigned `{unparse(other[0].value)}`: neither a parameter, nor a saved "
+                                   f"previous value, nor a paired temporary False", loc)
+                continue
+            if not offs:
+                ctx.ok(key, "passes a parameter / restores a saved value")
+                continue
+            g = ctx.cfg(fn)
+            probs, wit = [], None
+            rn = [i for st in restores for i in g.nodes_for(st)]
+            for off in offs:
+                recv = dotted(off.targets[0].value)
+                if not any(r == recv for r in saved.values()):
+                    probs.append(f"{recv}.autoflush is set to False without saving the previous value")
+                    continue
+                on = g.nodes_for(off)
+                sv = [i for nm, v, st in name_stores(fn) if nm in saved and saved[nm] == recv and isinstance(v, ast.Attribute) for i in g.nodes_for(st)]
+                if g.always_preceded(on[0], sv) is not None:
+                    probs.append("the previous value is not saved on every path before the switch")
+                w = g.must_pass(on, [g.exit, g.raise_exit], rn)
+                if w is not None:
+                    probs.append("an exit is reachable after the switch without restoring the saved value")
+                    wit = w
+                # generator-based context manager: an exception thrown into the `yield` must restore too
+                ys = [y for y in walk_local(fn) if isinstance(y, (ast.Yield, ast.YieldFrom)) and y.lineno >= off.lineno]
+                for y in ys:
+                    protected = False
+                    for anc in _ancestors(pm, y, fn):
+                        if isinstance(anc, ast.Try) and any(_inside(pm, y, b, fn) for b in anc.body) \
+                                and any(r2 in list(walk_stmts(anc.finalbody)) for r2 in restores):
+                            protected = True
+                    if not protected:
+                        probs.append("the `yield` of the context manager is not inside a try whose `finally` restores the saved value "
+                                     "(an exception in the with-block leaves autoflush off for the rest of the session)")
+            ctx.check(not probs, key, "; ".join(probs), "saved, switched off, restored on every exit", loc, wit)
+
+
+def _ancestors(pm, node, stop):
+    cur = pm.get(node)
+    while cur is not None and cur is not stop:
+        yield cur
+        cur = pm.get(cur)
+
+
+def _inside(pm, node, container, stop):
+    cur = node
+    while cur is not None and cur is not stop:
+        if cur is container:
+            return True
+        cur = pm.get(cur)
+    return False
+
+
+# ---------------------------------------------------------------------- R7: autoflush before the instance state that keys a load is read
+# callees through which a row is loaded FOR an instance that is already in the session
+LOAD_CALLEES = ("_load_on_ident", "_load_on_pk_identity", "_emit_lazyload")
+# calls that read the instance's current attribute values / identity to build the criteria of that load
+STATE_READERS = ("_generate_lazy_clause", "_get_ident_for_use_get", "_identity_key_from_state", "_optimized_get_statement")
+STATE_KEYED_EXEMPT = {
+    "orm/persistence.py::_finalize_insert_update_commands": "runs inside flush(): Session._autoflush is a no-op while _flushing",
+}
+
+
+def _state_reader_nodes(g, fn):
+    """CFG nodes that read the in-session state which keys the load: calls of STATE_READERS, or `<state>.key` used as a
+    value (assigned / passed), not merely tested for presence"""
+    out = []
+    for n in g.nodes:
+        if n.stmt is None or n.kind in ("with_exit", "handler", "join") or not isinstance(n.stmt, ast.stmt):
+            continue
+        hit = False
+        for part in own_exprs(n.stmt):
+            for c in calls_in(part):
+                if callee_is(c, *STATE_READERS):
+                    hit = True
+            pm = {ch: p for p in ast.walk(part) for ch in ast.iter_child_nodes(p)}
+            for x in ast.walk(part):
+                if isinstance(x, ast.Attribute) and x.attr == "key" and isinstance(x.ctx, ast.Load) \
+                        and isinstance(x.value, ast.Name) and "state" in x.value.id:
+                    par = pm.get(x)
+                    if par is None and n.kind == "test":
+                        continue
+                    tested = isinstance(par, (ast.UnaryOp, ast.BoolOp, ast.IfExp, ast.Compare, ast.Subscript)) or (
+                        isinstance(par, ast.Call) and isinstance(par.func, ast.Name) and par.func.id == "bool")
+                    if not tested:
+                        hit = True
+        if hit:
+            out.append(n.id)
+    return out
+
+
+@R.rule("C47-R7", floor=5, template="T-PATH/T-SIBLING",
+        desc="every function that loads a row FOR an instance already in the session (refresh, expired-attribute load, lazy "
+             "load) performs the autoflush BEFORE it reads the instance state that keys the SELECT (identity key, foreign-key "
+             "values of the lazy clause), as Session.refresh does since #8703; otherwise the flush inside execute() changes "
+             "that state after the parameters were bound")
+def r7(ctx):
+    members = []
+    for rel in (SESSION, LOADING, STRAT, "orm/persistence.py", "orm/mapper.py", "orm/state.py"):
+        m = ctx.index.module(rel)
+        for fi in ctx.index.all_functions(m):
+            if any(callee_is(c, *LOAD_CALLEES) or (callee_is(c, "session.execute") and rel == STRAT) for c in calls_in(fi.node)):
+                members.append(fi)
+    ctx.require(len(members) >= 4, "fewer than 4 functions load through _load_on_ident/_load_on_pk_identity/_emit_lazyload")
+
+    def no_sql(e, pol):
+        return (not pol and isinstance(e, ast.BinOp) and isinstance(e.op, ast.BitAnd)
+                and any((dotted(x) or "").rsplit(".", 1)[-1] == "SQL_OK" for x in (e.left, e.right)))
+
+    def excused(fn, g, t, pol):
+        """the branch outcome means: autoflush is legitimately off, or no SQL may be emitted at all"""
+        t = _resolve_local(fn, t)
+        if isinstance(t, ast.UnaryOp) and isinstance(t.op, ast.Not):
+            return excused(fn, g, t.operand, not pol)
+        if isinstance(t, ast.BoolOp):
+            disj = (isinstance(t.op, ast.Or) and pol) or (isinstance(t.op, ast.And) and not pol)
+            parts = [excused(fn, g, v, pol) for v in t.values]
+            return all(parts) if disj else any(parts)
+        return no_sql(t, pol) or _off_reason(fn, t, pol, g) is not None
+
+    def dominated(fi, nodes, depth=0):
+        g = ctx.cfg(fi)
+        af = call_nodes(g, lambda c: callee_is(c, "_autoflush"))
+        if af:
+            # paths that skip the autoflush through a branch outcome that switches autoflush off for a whitelisted
+            # reason (R5) or forbids SQL altogether are not paths on which pending changes must be seen
+            for t in g.nodes:
+                if t.kind == "test" and isinstance(t.stmt, (ast.If, ast.While)):
+                    for b, lab in g.succ[t.id]:
+                        if lab in ("true", "false") and b not in af and excused(fi.node, g, t.stmt.test, lab == "true"):
+                            af = af + [b]
+        bad = None
+        for nid in nodes:
+            w = g.always_preceded(nid, af) if af else ["no _autoflush() call in " + fi.key]
+            if w is not None:
+                bad = w
+        if bad is None:
+            return None
+        # the caller(s) may have autoflushed before calling this helper
+        if depth < 2:
+            callers = []
+            for fj in ctx.index.all_functions(fi.module):
+                if fj is fi:
+                    continue
+                gj = None
+                for c in calls_in(fj.node):
+                    if callee_is(c, fi.name):
+                        gj = gj or ctx.cfg(fj)
+                        callers.append((fj, [n for n in call_nodes(gj, lambda c2: callee_is(c2, fi.name))]))
+                        break
+            if callers and all(dominated(fj, ns, depth + 1) is None for fj, ns in callers):
+                return None
+        return bad
+
+    for fi in sorted(members, key=lambda f: f.key):
+        g = ctx.cfg(fi)
+        readers = _state_reader_nodes(g, fi.node)
+        if not readers:
+            continue
+        key = f"{fi.key}:autoflush-before-state-read"
+        ctx.functions_analysed.add(fi.key)
+        if fi.key in STATE_KEYED_EXEMPT:
+            ctx.ok(key, "exempt: " + STATE_KEYED_EXEMPT[fi.key])
+            continue
+        w = dominated(fi, readers)
+        what = sorted({g.nodes[r].describe() for r in readers})
+        ctx.check(w is None, key,
+                  "the instance state that keys the SELECT is read before any autoflush (" + "; ".join(what)[:300] + "): the autoflush "
+                  "that runs inside the load can change it (foreign key synchronised by flush, primary key switch), so the "
+                  "query is run with values an explicit flush() would have replaced",
+                  "autoflush dominates the state read", fi.loc, w)
+
+
 # ---------------------------------------------------------------------- self-test battery
 R.mutant("select-autoflush-during-pre-event", CONTEXT, sub("        if not is_pre_event and load_options._autoflush:\n            session._autoflush()\n\n        return statement, execution_options, params\n", "        if load_options._autoflush:\n            session._autoflush()\n\n        return statement, execution_options, params\n", count=2), "C47-R1")
 R.mutant("bulk-insert-never-autoflushes", BULK, sub("        if not is_pre_event and insert_options._autoflush:\n            session._autoflush()\n", "        if is_pre_event and insert_options._autoflush:\n            session._autoflush()\n"), "C47-R1")
@@ -249,3 +710,69 @@ R.mutant("get-uses-other-loader", SESSION, sub("            loading._load_on_pk_
 # benign
 R.mutant("benign-rename-load-options", CONTEXT, sub("        if not is_pre_event and load_options._autoflush:\n            session._autoflush()\n\n        return statement, execution_options, params\n", "        if load_options._autoflush and not is_pre_event:\n            session._autoflush()\n\n        return statement, execution_options, params\n", count=2), None)
 R.mutant("benign-autoflush-log", SESSION, sub("        if self.autoflush and not self._flushing:\n            try:\n                self.flush()", "        if self.autoflush and not self._flushing:\n            try:\n                _n = len(self._new)\n                self.flush()"), None)
+
+# ---- round 3 (str-q): seeds C47_1 / C47_2 and the families they belong to
+_CORE_ELSE = "        else:\n            # Issue #9809: unconditionally autoflush for Core statements\n            self._autoflush()\n\n        bind = self.get_bind(**bind_arguments)\n"
+_CORE_EXEC = "        else:\n            result = conn.execute(\n                statement, params, execution_options=combined_execution_options\n            )\n"
+_CORE_SCALAR = "            return conn.scalar(\n                statement,\n                params or {},\n"
+R.mutant("seed-core-autoflush-moved-past-scalar-return", SESSION,
+         chain(sub(_CORE_ELSE, "\n        bind = self.get_bind(**bind_arguments)\n"),
+               sub(_CORE_EXEC, "        else:\n            # Issue #9809: unconditionally autoflush for Core statements\n            self._autoflush()\n            result = conn.execute(\n                statement, params, execution_options=combined_execution_options\n            )\n")),
+         "C47-R1")
+R.mutant("core-scalar-path-returns-before-autoflush", SESSION,
+         sub("        if (\n            statement._propagate_attrs.get(\"compile_state_plugin\", None)\n            == \"orm\"\n        ):\n            compile_state_cls = CompileState._get_plugin_class_for_plugin(",
+             "        if _scalar_result and not self._new and not self._deleted:\n            return self.connection(bind_arguments).scalar(statement, params or {})\n        if (\n            statement._propagate_attrs.get(\"compile_state_plugin\", None)\n            == \"orm\"\n        ):\n            compile_state_cls = CompileState._get_plugin_class_for_plugin("),
+         "C47-R1")
+R.mutant("benign-core-autoflush-at-each-execution", SESSION,
+         chain(sub(_CORE_ELSE, "\n        bind = self.get_bind(**bind_arguments)\n"),
+               sub(_CORE_SCALAR, "            self._autoflush()\n" + _CORE_SCALAR),
+               sub(_CORE_EXEC, "        else:\n            self._autoflush()\n            result = conn.execute(\n                statement, params, execution_options=combined_execution_options\n            )\n")),
+         None)
+R.mutant("benign-core-autoflush-own-if", SESSION,
+         sub(_CORE_ELSE, "        if not compile_state_cls:\n            # Issue #9809: unconditionally autoflush for Core statements\n            self._autoflush()\n\n        bind = self.get_bind(**bind_arguments)\n"),
+         None)
+_LAZY_OFF = "        pending = not state.key\n\n        # don't autoflush on pending\n        if pending or passive & attributes.NO_AUTOFLUSH:\n            stmt._execution_options = util.immutabledict({\"autoflush\": False})\n"
+R.mutant("seed-lazyload-no-autoflush-for-viewonly", STRAT,
+         sub(_LAZY_OFF, "        pending = not state.key\n\n        if (\n            pending\n            or passive & attributes.NO_AUTOFLUSH\n            or self.parent_property.viewonly\n        ):\n            stmt._execution_options = util.immutabledict({\"autoflush\": False})\n"),
+         "C47-R5")
+R.mutant("lazyload-never-autoflushes", STRAT,
+         sub(_LAZY_OFF, "        pending = not state.key\n\n        stmt._execution_options = util.immutabledict({\"autoflush\": False})\n"),
+         "C47-R5")
+R.mutant("pk-load-no-autoflush-when-refreshing", LOADING,
+         sub("    if no_autoflush:\n        load_options += {\"_autoflush\": False}\n", "    if no_autoflush or refresh_state is not None:\n        load_options += {\"_autoflush\": False}\n"),
+         "C47-R5")
+R.mutant("expired-attribute-load-never-autoflushes", LOADING,
+         sub("    no_autoflush = bool(passive & attributes.NO_AUTOFLUSH)\n", "    no_autoflush = True\n"), "C47-R5")
+R.mutant("selectin-load-without-autoflush-option", STRAT,
+         sub("            result = context.session.execute(\n", "            q = q.execution_options(autoflush=False)\n            result = context.session.execute(\n", count=2),
+         "C47-R5")
+R.mutant("benign-lazyload-pending-inlined", STRAT,
+         sub("        if pending or passive & attributes.NO_AUTOFLUSH:\n            stmt._execution_options = util.immutabledict({\"autoflush\": False})\n",
+             "        if not state.key or bool(passive & attributes.NO_AUTOFLUSH):\n            stmt._execution_options = util.immutabledict({\"autoflush\": False})\n"),
+         None)
+R.mutant("benign-lazyload-off-condition-via-local", STRAT,
+         sub("        if pending or passive & attributes.NO_AUTOFLUSH:\n            stmt._execution_options = util.immutabledict({\"autoflush\": False})\n",
+             "        skip_flush = pending or passive & attributes.NO_AUTOFLUSH\n        if skip_flush:\n            stmt._execution_options = util.immutabledict({\"autoflush\": False})\n"),
+         None)
+_CM = "        autoflush = self.autoflush\n        self.autoflush = False\n        try:\n            yield self\n        finally:\n            self.autoflush = autoflush\n"
+R.mutant("no-autoflush-block-restores-only-on-success", SESSION,
+         sub(_CM, "        autoflush = self.autoflush\n        self.autoflush = False\n        yield self\n        self.autoflush = autoflush\n"), "C47-R6")
+R.mutant("no-autoflush-block-restores-true", SESSION,
+         sub(_CM, "        self.autoflush = False\n        try:\n            yield self\n        finally:\n            self.autoflush = not self.autoflush\n"), "C47-R6")
+R.mutant("merge-result-leaves-autoflush-off", LOADING,
+         sub("    finally:\n        session.autoflush = autoflush\n\n\ndef get_from_identity", "    finally:\n        pass\n\n\ndef get_from_identity"), "C47-R6")
+R.mutant("loader-switches-session-autoflush-off", LOADING,
+         sub("    if no_autoflush:\n        load_options += {\"_autoflush\": False}\n", "    if no_autoflush:\n        load_options += {\"_autoflush\": False}\n        session.autoflush = False\n"), "C47-R6")
+R.mutant("benign-no-autoflush-block-renamed-local", SESSION,
+         sub(_CM, "        previous = self.autoflush\n        self.autoflush = False\n        try:\n            yield self\n        finally:\n            self.autoflush = previous\n"), None)
+R.mutant("refresh-reads-identity-before-autoflush", SESSION,
+         chain(sub("        self._expire_state(state, attribute_names)\n\n        # this autoflush previously", "        self._expire_state(state, attribute_names)\n        ident_key = state.key\n\n        # this autoflush previously"),
+               sub("                stmt,\n                state.key,\n                refresh_state=state,\n                with_for_update=with_for_update,", "                stmt,\n                ident_key,\n                refresh_state=state,\n                with_for_update=with_for_update,")),
+         "C47-R7")
+R.mutant("refresh-autoflush-only-for-attribute-names", SESSION,
+         sub("        # load_on_ident.\n        self._autoflush()\n\n        if with_for_update == {}:", "        # load_on_ident.\n        if attribute_names:\n            self._autoflush()\n\n        if with_for_update == {}:"),
+         "C47-R7")
+# the repair of the R7 finding in the expired-attribute loader (mirror of Session.refresh) must not raise anything new
+R.mutant("fix-expired-attribute-load-autoflushes-up-front", LOADING,
+         sub("    no_autoflush = bool(passive & attributes.NO_AUTOFLUSH)\n", "    no_autoflush = bool(passive & attributes.NO_AUTOFLUSH)\n    if not no_autoflush:\n        session._autoflush()\n        no_autoflush = True\n"),
+         None)
